@@ -66,6 +66,7 @@ func genParams(rt *rapid.T, seedTag string) (sim.Params, string, []string) {
 			p.ValPower = append(p.ValPower, s*a)
 		}
 		p.Witnesses = []int{0}
+		p.TopCount = 8
 	}
 	return p, flavour, pool
 }
@@ -81,6 +82,8 @@ type fgen struct {
 	rt   *rapid.T
 	pool []string
 	n    int
+	// cfgQueue holds update strings the next config-update proposals use first (directed scenarios)
+	cfgQueue []string
 }
 
 func (f *fgen) next() int64 { return f.w.C.Height + 1 }
@@ -143,6 +146,11 @@ func (f *fgen) create() txgen.Tx {
 	cfg := ""
 	if typ == governance.ProposalTypeConfigUpdate {
 		cfg = f.pool[f.u.N(len(f.pool), "cr-cfg")]
+		if len(f.cfgQueue) > 0 {
+			cfg, f.cfgQueue = f.cfgQueue[0], f.cfgQueue[1:]
+		} else if f.u.N(3, "cr-valid") != 0 {
+			cfg = f.pool[f.u.N(6, "cr-cfgv")] // the first six are valid in every flavour
+		}
 	} else if f.u.N(8, "cr-cfgstray") == 0 {
 		cfg = f.pool[f.u.N(len(f.pool), "cr-cfg2")] // an update string on a non-config proposal must never be applied
 	}
@@ -446,6 +454,9 @@ func (f *fgen) stranger() (txgen.Tx, bool) {
 func (f *fgen) drawBlock(exclNegWithdraw bool) ([]txgen.Tx, string) {
 	// deep-state drivers first: they apply only in particular model states
 	r := f.u.N(100, "blk")
+	if f.next() <= 2 && f.u.N(5, "warmup") != 0 {
+		return nil, "idle" // validators are marked active at the end of block 2: earlier snapshots are empty
+	}
 	switch {
 	case r < 14:
 		if txs, ok := f.refundBlock(); ok {
@@ -473,10 +484,14 @@ func (f *fgen) drawBlock(exclNegWithdraw bool) ([]txgen.Tx, string) {
 	for i := 0; i < n; i++ {
 		var tx txgen.Tx
 		ok := false
-		switch a := f.u.N(100, "act"); {
-		case a < 22:
+		a := f.u.N(100, "act")
+		if len(f.byStage(SF, SV)) == 0 && a < 67 {
+			a = 0
+		}
+		switch {
+		case a < 10:
 			tx, ok = f.create(), true
-		case a < 47:
+		case a < 42:
 			tx, ok = f.fund(false)
 		case a < 67:
 			tx, ok = f.vote()
@@ -494,7 +509,11 @@ func (f *fgen) drawBlock(exclNegWithdraw bool) ([]txgen.Tx, string) {
 			tx, ok = f.g.Send(), true
 		}
 		if !ok {
-			tx = f.create()
+			if tx, ok = f.fund(false); !ok {
+				if tx, ok = f.vote(); !ok {
+					tx = f.create()
+				}
+			}
 		}
 		out = append(out, tx)
 	}
